@@ -110,12 +110,12 @@ class First(Aggregation):
 
 class Last(Aggregation):
     pretty_name = "last"
-    _sentinel = object()
+    _sentinel = _NoValue
 
     def __init__(self, column, ignore_nulls):
         super().__init__(column)
         self.column = column
-        self.value = None
+        self.value = self._sentinel
         self.ignore_nulls = ignore_nulls.get_literal_value()
 
     def merge(self, row, schema):
@@ -124,11 +124,14 @@ class Last(Aggregation):
             self.value = new_value
 
     def mergeStats(self, other, schema):
+        # a partial result that saw no row at all does not change the value
+        if other.value is Last._sentinel:
+            return
         if not (self.ignore_nulls and other.value is None):
             self.value = other.value
 
     def eval(self, row, schema):
-        return self.value
+        return self.value if self.value is not Last._sentinel else None
 
     def args(self):
         return (
